@@ -77,6 +77,14 @@ func c02Check(e *core.Env, r *core.Rand, d *gen.Out, today ref.Date, nowCase boo
 	clock := obs.ClockAt(today, minute, r.PickInt(0, 59))
 	w["clock"] = clock.Format("2006-01-02T15:04:05")
 	cpus := r.PickInt(1, 1, 3)
+	in := files(f)
+	if r.Chance(1, 5) {
+		if parts, ok := splitAtRecord(e, r, d, "c02"); ok {
+			in = files(parts...) // the same records given as two input files
+			w["input_files"] = parts
+			e.Count("cases_with_two_input_files", 1)
+		}
+	}
 	extra := make([]int, len(doc.Recs))
 	mustFail := false
 	closed := false
@@ -96,7 +104,7 @@ func c02Check(e *core.Env, r *core.Rand, d *gen.Out, today ref.Date, nowCase boo
 
 	for _, decimal := range []bool{false, true} {
 		res := runRO(e, &cli.Total{DiffArgs: util.DiffArgs{Diff: true}, NowArgs: util.NowArgs{Now: nowCase}, DecimalArgs: util.DecimalArgs{Decimal: decimal},
-			WarnArgs: util.WarnArgs{NoWarn: true}, NoStyleArgs: util.NoStyleArgs{NoStyle: true}, InputFilesArgs: util.InputFilesArgs{File: files(f)}}, cpus, "", "", clock)
+			WarnArgs: util.WarnArgs{NoWarn: true}, NoStyleArgs: util.NoStyleArgs{NoStyle: true}, InputFilesArgs: util.InputFilesArgs{File: in}}, cpus, "", "", clock)
 		if res.Panic != nil {
 			e.Violation("total-panic: "+res.Panic.Site(), res.Panic.Value, w)
 			return
@@ -122,7 +130,7 @@ func c02Check(e *core.Env, r *core.Rand, d *gen.Out, today ref.Date, nowCase boo
 		} else {
 			wt, ws, wd = ref.FormatPlainDuration(wantTotal), ref.FormatPlainDuration(wantShould)+"!", ref.FormatSignedDuration(wantDiff)
 		}
-		if core.Hash64("cli", d.Text)%15 == 0 {
+		if core.Hash64("cli", d.Text)%15 == 0 && len(in) == 1 {
 			args := []string{"total", "--diff", "--no-warn", "--no-style"}
 			if nowCase {
 				args = append(args, "--now")
@@ -146,7 +154,7 @@ func c02Check(e *core.Env, r *core.Rand, d *gen.Out, today ref.Date, nowCase boo
 		return
 	}
 	// json
-	res := runRO(e, &cli.Json{NowArgs: util.NowArgs{Now: nowCase}, Pretty: r.Bool(), InputFilesArgs: util.InputFilesArgs{File: files(f)}}, cpus, "", "", clock)
+	res := runRO(e, &cli.Json{NowArgs: util.NowArgs{Now: nowCase}, Pretty: r.Bool(), InputFilesArgs: util.InputFilesArgs{File: in}}, cpus, "", "", clock)
 	if res.Panic != nil || res.Err != nil {
 		e.Violation("json-fails", fmt.Sprintf("`klog json` failed on a valid file: panic=%v err=%v", res.Panic != nil, res.Err), w)
 		return
@@ -169,7 +177,7 @@ func c02Check(e *core.Env, r *core.Rand, d *gen.Out, today ref.Date, nowCase boo
 	}
 	// print --with-totals (without --now: that flag does not exist there)
 	if !nowCase {
-		res := runRO(e, &cli.Print{WithTotals: true, WarnArgs: util.WarnArgs{NoWarn: true}, NoStyleArgs: util.NoStyleArgs{NoStyle: true}, InputFilesArgs: util.InputFilesArgs{File: files(f)}}, cpus, "", "", clock)
+		res := runRO(e, &cli.Print{WithTotals: true, WarnArgs: util.WarnArgs{NoWarn: true}, NoStyleArgs: util.NoStyleArgs{NoStyle: true}, InputFilesArgs: util.InputFilesArgs{File: in}}, cpus, "", "", clock)
 		if res.Panic != nil || res.Err != nil {
 			e.Violation("print-with-totals-fails", fmt.Sprintf("panic=%v err=%v", res.Panic != nil, res.Err), w)
 			return
